@@ -22,11 +22,20 @@ def trace_local(an, op):
     """follow plain moves/copies back to the local that first held the value"""
     if op.kind not in ("copy", "move"):
         return None
+    if op.place.proj == ["deref"]:
+        # *r with r = &mut L (a reference taken once, to a whole local)
+        r = an.resolve_ref(op.place.local)
+        if r is not None and r[1] == [] and r[2] is False:
+            return trace_local_of(an, r[0])
+        return None
     if not op.place.is_local():
         op = _field_of_aggregate(an, op.place)
         if op is None or op.kind not in ("copy", "move") or not op.place.is_local():
             return None
-    cur = op.place.local
+    return trace_local_of(an, op.place.local)
+
+
+def trace_local_of(an, cur):
     for _ in range(20):
         d = an.unique_def(cur)
         if d is None:
